@@ -409,7 +409,14 @@ def _pen(model: Model, rep: Report, se: SymEval) -> None:
             cn, an = g.node_of(csp[0]), g.node_of(adv[0]) if adv else None
             before = cn is not None and an is not None and cn in dom.get(an, set()) or (cn is not None and an is not None and cn < an and an not in dom.get(cn, set()))
             if before:
-                r6.violation(site(f, csp[0]), f.qualname, "character spacing is added before a glyph (guarded by needcharspace) instead of after each glyph", "9.4.4: tx = (w0*Tfs + Tc + Tw)*Th after *every* glyph: the spacing after the last glyph of a string is lost, so `5 Tc (A) Tj (B) Tj` places B differently from `(AB) Tj`")
+                from ..util import guard_conjuncts
+
+                gset = sorted(guard_conjuncts(f, csp[0], innermost=True))
+                flag_writes = sorted({"".join(unparse(a).split()) for a in walk_no_nested(f.node) if isinstance(a, ast.Assign) and any(isinstance(t, ast.Name) and t.id in gset for t in a.targets)})
+                # the finding recorded for today's tree is exactly: guard = the flag `needcharspace`, cleared at the start and set after
+                # every number and every glyph; any other guard is a different defect and is reported as such
+                guard_txt = ",".join(gset) if (gset != ["needcharspace"] or flag_writes != ["needcharspace=False", "needcharspace=True"]) else "needcharspace"
+                r6.violation(site(f, csp[0]), f.qualname, f"character spacing is added before a glyph (guarded by {guard_txt}) instead of after each glyph", "9.4.4: tx = (w0*Tfs + Tc + Tw)*Th after *every* glyph: the spacing after the last glyph of a string is lost, so `5 Tc (A) Tj (B) Tj` places B differently from `(AB) Tj`")
             else:
                 r6.ok(site(f, csp[0]), f.qualname, "character spacing added after each glyph")
     r6.check(len(set(hv.values())) == 1, site(model.func(D + "render_string_vertical")), D + "render_string_vertical", "vertical renderer == horizontal renderer with the pen coordinate swapped", why="the two renderers differ beyond the pen variable")
